@@ -112,6 +112,11 @@ def r16_1(ctx):
                 okp = ast.unparse(ga.iter) == ast.unparse(gb.iter) and [ast.unparse(i) for i in ga.ifs] == [ast.unparse(i) for i in gb.ifs] and ast.unparse(ga.target) == ast.unparse(gb.target)
                 e = ast.unparse(ga.target)
                 okp = okp and ast.unparse(da.elt) == e and ast.unparse(db.elt) == "self._signals[%s].der" % e and [ast.unparse(i) for i in ga.ifs] == ["%s in self._signals" % e]
+                if not okp and isinstance(a, ast.Name):
+                    # the derivative list is derived from the symbol list itself: [self._signals[e].der for e in <symbol list>]
+                    eb = ast.unparse(gb.target)
+                    okp = ast.unparse(gb.iter) == a.id and not gb.ifs and ast.unparse(db.elt) == "self._signals[%s].der" % eb and \
+                        ast.unparse(da.elt) == e and [ast.unparse(i) for i in ga.ifs] == ["%s in self._signals" % e]
             ctx.check(okp, "Stage.der signal symbols and their derivative symbols are listed over the same iteration", detail="signal paired with another signal's derivative",
                       expected="[e for e in symbols if e in self._signals] <-> [self._signals[e].der for e in symbols if e in self._signals]",
                       found="%s <-> %s" % (ast.unparse(da) if da is not None else None, ast.unparse(db) if db is not None else None), fi=f, node=r)
